@@ -773,8 +773,277 @@ struct runner
   }
 };
 
+// ------------------------------------------------------------------ fault injection: a value type whose copies can fail
+// The tree is a template over the value type, and a value's copy (there is no cheaper move for this type) may throw.
+// A failpoint makes the k-th copy after arming throw.  The property's invariant must survive an operation that ends in
+// an exception: every child's parent() is the node that lists it, a root has no parent, no node is lost or destroyed
+// twice (live-object ledger of the value type + ASan/LSan).  What values the nodes hold afterwards is not judged.
+struct fault
+{
+};
+struct fv
+{
+  static long &live()
+  {
+    static long n = 0;
+    return n;
+  }
+  static long &countdown()
+  {
+    static long n = 0;
+    return n;
+  }
+  static void tick()
+  {
+    if (countdown() > 0 && --countdown() == 0)
+      throw fault{};
+  }
+  explicit fv(int k) : id(k) { ++live(); }
+  fv(fv const &o) : id((tick(), o.id)) { ++live(); }
+  fv &operator=(fv const &o)
+  {
+    tick();
+    id = o.id;
+    return *this;
+  }
+  ~fv() { --live(); }
+  friend bool operator<(fv const &a, fv const &b) { return a.id < b.id; }
+  friend bool operator==(fv const &a, fv const &b) { return a.id == b.id; }
+  int id;
+};
+using TF = fcppt::container::tree::object<fv>;
+
+struct fault_runner
+{
+  std::vector<std::unique_ptr<TF>> roots;
+  std::uint64_t links = 0;
+  std::string trace;
+  bool ok = true;
+
+  static void collect(TF &t, std::vector<TF *> &out)
+  {
+    out.push_back(&t);
+    for (TF &c : t)
+      collect(c, out);
+  }
+  static bool below(TF const &anc, TF const &n) // is n inside the subtree of anc (or anc itself)?
+  {
+    for (TF const *p = &n; p != nullptr;)
+    {
+      if (p == &anc)
+        return true;
+      auto par = p->parent();
+      p = par.has_value() ? &par.get_unsafe().get() : nullptr;
+    }
+    return false;
+  }
+  long walk(TF &t, std::string const &e, char const *op)
+  {
+    long n = 1;
+    for (TF &c : t)
+    {
+      ++links;
+      auto par = c.parent();
+      if (!par.has_value() || &par.get_unsafe().get() != &t)
+      {
+        if (ok)
+          vf::violation(e + "/" + op + "/parent-link", "mismatch", "after " + trace + ": a child does not point at the node that lists it");
+        ok = false;
+        return n;
+      }
+      n += walk(c, e, op);
+    }
+    return n;
+  }
+  void verify(std::string const &e, char const *op)
+  {
+    long nodes = 0;
+    for (auto &r : roots)
+    {
+      if (r->parent().has_value())
+      {
+        if (ok)
+          vf::violation(e + "/" + op + "/root-has-parent", "mismatch", "after " + trace);
+        ok = false;
+      }
+      nodes += walk(*r, e, op);
+    }
+    if (ok && nodes != fv::live())
+    {
+      vf::violation(e + "/" + op + "/node-ledger", "mismatch",
+                    "after " + trace + ": " + std::to_string(nodes) + " nodes reachable from the roots, " + std::to_string(fv::live()) + " values alive");
+      ok = false;
+    }
+  }
+  void run(std::uint64_t h, std::string const &e)
+  {
+    vf::rng g(vf::seed_for(e, h));
+    int next_id = 1;
+    roots.clear();
+    ok = true;
+    trace.clear();
+    long const base_live = fv::live();
+    if (base_live != 0)
+    {
+      vf::violation(e + "/ledger-not-zero-at-start", "mismatch", std::to_string(base_live));
+      fv::live() = 0;
+    }
+    for (int i = 0; i < 2; ++i)
+      roots.push_back(std::make_unique<TF>(fv{next_id++}));
+    unsigned const steps = 6 + static_cast<unsigned>(g.below(25));
+    for (unsigned s = 0; s < steps && ok; ++s)
+    {
+      std::vector<TF *> all;
+      for (auto &r : roots)
+        collect(*r, all);
+      TF &a = *all[g.below(all.size())];
+      TF &b = *all[g.below(all.size())];
+      bool const unrelated = !below(a, b) && !below(b, a);
+      unsigned const op = static_cast<unsigned>(g.below(14));
+      long const arm = g.chance(3, 5) ? static_cast<long>(g.below(4)) + 1 : 0; // fail the arm-th copy from now on
+      char const *name = "?";
+      bool threw = false;
+      fv const val{next_id++};
+      try
+      {
+        fv::countdown() = arm;
+        switch (op)
+        {
+        case 0: name = "push_back-value"; a.push_back(val); break;
+        case 1: name = "push_front-value"; a.push_front(val); break;
+        case 2:
+        {
+          name = "insert-value";
+          auto it = a.begin();
+          std::advance(it, static_cast<std::ptrdiff_t>(g.below(a.size() + 1)));
+          a.insert(it, val);
+        }
+        break;
+        case 3:
+          name = "swap";
+          if (unrelated)
+            a.swap(b);
+          break;
+        case 4:
+          name = "copy-assign";
+          if (unrelated)
+            a = b;
+          break;
+        case 5:
+          name = "move-assign";
+          if (unrelated)
+            a = std::move(b);
+          break;
+        case 6:
+        {
+          name = "copy-ctor-to-root";
+          if (roots.size() < 4)
+            roots.push_back(std::make_unique<TF>(a));
+        }
+        break;
+        case 7:
+        {
+          name = "move-ctor-to-root";
+          if (roots.size() < 4)
+            roots.push_back(std::make_unique<TF>(std::move(a)));
+        }
+        break;
+        case 8:
+        {
+          name = "release";
+          if (!a.empty() && roots.size() < 4)
+          {
+            auto it = a.begin();
+            std::advance(it, static_cast<std::ptrdiff_t>(g.below(a.size())));
+            roots.push_back(std::make_unique<TF>(a.release(it)));
+          }
+        }
+        break;
+        case 9:
+        {
+          name = "pop_back";
+          auto r = a.pop_back();
+          (void)r;
+        }
+        break;
+        case 10:
+        {
+          name = "push_back-subtree";
+          if (unrelated)
+            a.push_back(TF(b)); // a copy of b becomes a child of a
+        }
+        break;
+        case 11:
+          name = "sort-throwing-predicate";
+          a.sort([](fv const &x, fv const &y) {
+            fv::tick();
+            return y.id < x.id;
+          });
+          break;
+        case 12:
+        {
+          name = "value-set";
+          a.value(val);
+        }
+        break;
+        default:
+        {
+          name = "map";
+          auto m = fcppt::container::tree::map<TF>(a, [](fv const &x) { return fv(x); });
+          (void)m;
+        }
+        break;
+        }
+      }
+      catch (fault const &)
+      {
+        threw = true;
+      }
+      fv::countdown() = 0;
+      trace += std::string(" ") + name + (threw ? "!throw@" + std::to_string(arm) : "");
+      vf::extend_case(" %s%s", name, threw ? "!" : "");
+      vf::count(std::string(threw ? "tree/fault/threw/" : "tree/fault/completed/") + name, 1);
+      // `val` is still alive here: it is one value that no tree owns
+      long const before = fv::live();
+      fv::live() = before - 1;
+      verify(e, name);
+      fv::live() = before;
+    }
+    roots.clear();
+    if (ok && fv::live() != 0)
+      vf::violation(e + "/values-alive-after-all-trees-were-destroyed", "mismatch", std::to_string(fv::live()));
+    fv::live() = 0;
+    vf::note_distinct(vf::hash_str(trace));
+  }
+};
+
+void fault_histories()
+{
+  std::string const e = "tree-fault-history";
+  if (!vf::entry_enabled(e))
+    return;
+  vf::set_entry(e);
+  for (char const *b : {"tree/fault/threw/swap", "tree/fault/threw/copy-assign", "tree/fault/threw/move-assign", "tree/fault/threw/copy-ctor-to-root",
+                        "tree/fault/threw/push_back-value", "tree/fault/threw/insert-value", "tree/fault/threw/release", "tree/fault/threw/pop_back",
+                        "tree/fault/threw/push_back-subtree", "tree/fault/threw/sort-throwing-predicate", "tree/fault/threw/map", "tree/fault/completed/swap"})
+    vf::require_bucket(b);
+  fault_runner r;
+  std::uint64_t total = vf::tier<std::uint64_t>(8000, 400000);
+  if (vf::has_extra("--small"))
+    total = 8000;
+  std::uint64_t const per = total / vf::opts().nparts + 1;
+  for (std::uint64_t i = 0; i < per; ++i)
+  {
+    if (!vf::begin_case("fault seed=%" PRIu64 " part=%u h=%" PRIu64 ":", vf::opts().seed, vf::opts().part, i))
+      continue;
+    r.run(i, e);
+  }
+  vf::count("tree/fault/links-verified", r.links);
+}
+
 void body()
 {
+  fault_histories();
   for (char const *b :
        {"tree/op/push_back-value", "tree/op/push_front-value", "tree/op/push_back-subtree", "tree/op/push_front-subtree",
         "tree/op/insert-value", "tree/op/insert-subtree", "tree/op/copy-ctor-to-root", "tree/op/copy-ctor-to-child",
